@@ -64,9 +64,10 @@ pub fn parse_rootdefinition_enum(
                 ),
                 Some(last_value) => {
                     let next_value = match last_value.0 {
+                        ir::Constant::Bool(v) => ir::Constant::Int32(i32::from(v) + 1),
                         ir::Constant::IntLiteral(v) => ir::Constant::IntLiteral(v + 1),
-                        ir::Constant::Int32(v) => ir::Constant::Int32(v + 1),
-                        ir::Constant::UInt32(v) => ir::Constant::UInt32(v + 1),
+                        ir::Constant::Int32(v) => ir::Constant::Int32(v.wrapping_add(1)),
+                        ir::Constant::UInt32(v) => ir::Constant::UInt32(v.wrapping_add(1)),
                         _ => panic!("Unexpected constant type in enum value"),
                     };
                     (next_value, last_value.1)
